@@ -217,6 +217,25 @@ def chk_ber_read(T, v, M):
         if got != want or rest:
             out.append(fail('ber-read', T, v, 'reference reader sees another value/remainder', mode=mode, enc=e,
                             got=repr(got), rest=rest))
+    if 'REAL' in repr(T):
+        # X.690 8.5.7.2: the binary encoding may use base 8 or 16 (selected per value, per encoder, or automatically)
+        from pyasn1.type import univ as _univ
+        saved_v, saved_e = _univ.Real.binEncBase, be.RealEncoder.binEncBase
+        try:
+            for vbase, ebase in ((8, 2), (16, 2), (None, 8), (None, 16), (None, None)):
+                _univ.Real.binEncBase, be.RealEncoder.binEncBase = vbase, ebase
+                n += 1
+                try:
+                    e = be.encode(bridge.to_value(T, v))
+                    got, rest = x690.decode(T, e)
+                except Exception as ex:
+                    out.append(fail('ber-read', T, v, 'REAL base %s/%s: %s: %s' % (vbase, ebase, type(ex).__name__, str(ex)[:160])))
+                    continue
+                if got != want or rest:
+                    out.append(fail('ber-read', T, v, 'REAL encoded with base %s/%s: reference reader sees another value' % (
+                        vbase, ebase), enc=e, got=repr(got)))
+        finally:
+            _univ.Real.binEncBase, be.RealEncoder.binEncBase = saved_v, saved_e
     return out, n
 
 
